@@ -36,6 +36,7 @@ TYPES.append(_t(82, "other"))        # chan *Big, Big = [1<<17]byte (reflect.Cha
 TYPES.append(_t(83, "other"))        # map[string]*T0
 TYPES.append(_t(84, "other"))        # func() *T0
 TYPES.append(_t(85, "other"))        # <-chan *T0: a type whose name has an angle bracket in it
+TYPES.append(_t(86, "other"))        # [1<<20]*Giant, Giant = [1<<45]byte: an array of pointers whose "array of elements" cannot exist; parameter type only
 
 BY_ID = {t["id"]: t for t in TYPES}
 
